@@ -185,8 +185,8 @@ func synReplay(raw json.RawMessage, idx int, tr *traceWriter) {
 	if err := json.Unmarshal(raw, &c); err != nil {
 		panic(err)
 	}
-	tr.emit(map[string]interface{}{"case": idx, "ev": "reset", "input": raw, "nt": len(c.Cs) > 1 || len(c.Raw) > 1})
 	if c.Has || c.Raw != "" {
+		tr.emit(map[string]interface{}{"case": idx, "ev": "reset", "input": raw, "nt": len(c.Raw) > 1})
 		synOne(decBytes(c.Raw), tr)
 		return
 	}
@@ -198,6 +198,8 @@ func synReplay(raw json.RawMessage, idx int, tr *traceWriter) {
 			ms := classMembers[cl]
 			b.WriteByte(ms[rng.Intn(len(ms))])
 		}
+		// the concrete string is the replayable input
+		tr.emit(map[string]interface{}{"case": idx, "ev": "reset", "input": synCase{Raw: encBytes(b.String()), Has: true}, "nt": len(c.Cs) > 1})
 		synOne(b.String(), tr)
 	}
 }
